@@ -85,7 +85,11 @@ def lean_phase(pid, theorems, modules):
     with Lock("lean.lock"):
         rc, out = run([sys.executable, os.path.join(VERIF, "tools", "gen_constants.py"), REPO,
                        os.path.join(LEAN, "WowSrp", "Gen", "Constants.lean")])
-        if rc != 0:
+        if rc == 3:
+            # some constants were not found: placeholders were emitted, so exactly the theorems (and model
+            # behaviour) that depend on them break; properties that do not depend on them are unaffected
+            res["notes"].append("constants translator emitted placeholders: " + out.strip()[-600:])
+        elif rc != 0:
             res["tie_ok"] = False
             res["notes"].append("constants translator failed: " + out.strip()[-400:])
         t0 = time.time()
